@@ -391,6 +391,20 @@ class HashRule(ABC):
         if ":" in symbol:
 
             def memento_fn_resolver():
+                parts = FunctionReference.parse_qualified_name(symbol)
+                if parts["version"] is None:
+                    # The currently linked function is wanted. Find it without asking for its
+                    # version: with mutually recursive functions that version may be the very
+                    # one being computed.
+                    try:
+                        # noinspection PyProtectedMember
+                        return FunctionReference._find_function(
+                            module=parts["module"],
+                            function_name=parts["function"],
+                            version=None,
+                        )
+                    except (ModuleNotFoundError, ValueError, AttributeError):
+                        pass
                 return FunctionReference.from_qualified_name(symbol).memento_fn
 
             memento_fn = memento_fn_resolver()
